@@ -123,17 +123,16 @@ def run_one(gen, kwargs, pretty, oracle):
     """call the generator with `oracle` installed as mathy_core.problems.random"""
     from mathy_core import problems as P
 
-    saved = P.random
-    P.random = oracle
+    CH.install(P)
     P.use_pretty_numbers(pretty)
     try:
-        return ("ok", getattr(P, gen)(**kwargs))
+        with CH.owned(oracle):
+            return ("ok", getattr(P, gen)(**kwargs))
     except CH.Divergence:
         raise
     except Exception as e:  # noqa
         return ("raise", e)
     finally:
-        P.random = saved
         P.use_pretty_numbers(True)
 
 
@@ -178,17 +177,15 @@ def check_rand_vars(acc, bound):
         for policy in POLICIES:
             def execute(prefix):
                 orc = CH.Oracle(prefix, policy)
-                saved = P.random
-                P.random = orc
+                CH.install(P)
                 try:
-                    got = P.get_rand_vars(n, list(excl), common)
+                    with CH.owned(orc):
+                        got = P.get_rand_vars(n, list(excl), common)
                     err = None
                 except CH.Divergence:
                     raise
                 except Exception as e:  # noqa
                     got, err = None, e
-                finally:
-                    P.random = saved
                 acc.count("executions")
                 acc.count("rand_vars_executions")
                 case = {"kind": "rand_vars", "n": n, "excl": excl, "common": common, "policy": policy, "choices": [t[2] for t in orc.trace]}
@@ -210,16 +207,14 @@ def check_split(acc):
     for v in range(0, 65):
         for idx in range(5):
             orc = CH.Oracle([idx], "first")
-            saved = P.random
-            P.random = orc
+            CH.install(P)
             try:
-                a, b = P.split_in_two_random(v)
+                with CH.owned(orc):
+                    a, b = P.split_in_two_random(v)
                 ok = (a + b == v) and a <= b and a >= 0
                 err = None
             except Exception as e:  # noqa
                 ok, err = False, e
-            finally:
-                P.random = saved
             acc.count("executions")
             acc.count("split_executions")
             if not ok:
